@@ -178,6 +178,8 @@ class n0dict__(dict):
         return new_value  # For speed
     # **************************************************************************
     def delete(self, xpath: str, recursively: bool = False) -> n0dict__:
+        if isinstance(xpath, str) and xpath.startswith('?'):
+            xpath = xpath[1:]  # '?' is not a part of the path: the same as in __getitem__()/__setitem__()
         # the same normalisation as _find() applies to string xpaths: '/a', '//a', 'a[i][j]', ' a / b '
         xpath_list = [itm.strip() for itm in xpath.replace("][","]/[").split('/') if itm]
         first = True
@@ -205,6 +207,9 @@ class n0dict__(dict):
     # **************************************************************************
     def pop(self, xpath: str, if_not_found = None, recursively: bool = False) -> typing.Any:
         result = if_not_found
+        if isinstance(xpath, str) and xpath.startswith('?'):
+            # '?' asks not to raise for a miss, pop() never does: without it a miss gives if_not_found (and not '')
+            xpath = xpath[1:]
         try:
             result = self[xpath]
             self.delete(xpath, recursively)
